@@ -124,9 +124,9 @@ theorem greaterThanU_nn {a b r : Value} (h : greaterThanU a b = .ok r) : r.isNul
   · exact gtShort_nn h
   · exact gtShort_nn h
 
-theorem rangeArith_shape {op : Num → Num → Res Num} {a b r : Value} (h : rangeArith op a b = .ok r) :
-    ∃ lo hi, r = numRangeResult lo hi := by
-  unfold rangeArith at h
+theorem rangeArithC_shape {corner : Option Num → Option Num → Option Num} {a b r : Value}
+    (h : rangeArithC corner a b = .ok r) : ∃ lo hi, r = numRangeResult lo hi := by
+  unfold rangeArithC at h
   obtain ⟨x1, _, h⟩ := Res.bind_eq_ok.mp h
   obtain ⟨x2, _, h⟩ := Res.bind_eq_ok.mp h
   obtain ⟨x3, _, h⟩ := Res.bind_eq_ok.mp h
@@ -136,9 +136,14 @@ theorem rangeArith_shape {op : Num → Num → Res Num} {a b r : Value} (h : ran
   simp only [pure, Res.ok.injEq] at h
   exact ⟨_, _, h.symm⟩
 
-theorem rangeArith_nn {op : Num → Num → Res Num} {a b r : Value} (h : rangeArith op a b = .ok r) : r.isNull = false := by
-  obtain ⟨lo, hi, rfl⟩ := rangeArith_shape h
+theorem rangeArithC_nn {corner : Option Num → Option Num → Option Num} {a b r : Value}
+    (h : rangeArithC corner a b = .ok r) : r.isNull = false := by
+  obtain ⟨lo, hi, rfl⟩ := rangeArithC_shape h
   exact isNull_numRangeResult _ _
+theorem rangeArith_shape {op : Num → Num → Res Num} {a b r : Value} (h : rangeArith op a b = .ok r) :
+    ∃ lo hi, r = numRangeResult lo hi := rangeArithC_shape h
+theorem rangeArith_nn {op : Num → Num → Res Num} {a b r : Value} (h : rangeArith op a b = .ok r) : r.isNull = false :=
+  rangeArithC_nn h
 
 theorem addU_nn {a b r : Value} (h : addU a b = .ok r) : r.isNull = false := by
   unfold addU at h
@@ -170,8 +175,10 @@ theorem mulU_nn {a b r : Value} (h : mulU a b = .ok r) : r.isNull = false := by
     obtain ⟨y, hy, h⟩ := Res.bind_eq_ok.mp h
     obtain ⟨z, hz, h⟩ := Res.bind_eq_ok.mp h
     simp only [pure, Res.ok.injEq] at h; subst h; rfl
-  · exact rangeArith_nn h
-  · exact rangeArith_nn h
+  all_goals
+    split at h
+    · simp only [pure, Res.ok.injEq] at h; subst h; rfl
+    · exact rangeArithC_nn h
 
 theorem divU_nn {a b r : Value} (h : divU a b = .ok r) : r.isNull = false := by
   unfold divU at h
